@@ -571,10 +571,20 @@ def op_let(w, ins):
     elif kind == 'fn':
         subs = {}
         d = {}
-        for k, v in pairs:
-            s = w.pick(v, m)
-            subs[k] = s.tt
-            d[w.names[k]] = s.ref
+        cm = ins.get('cm') or []
+        for j, (k, v) in enumerate(pairs):
+            c = cm[j] if j < len(cm) else 0
+            if c == 1:
+                # a constant among the replacement functions
+                subs[k] = T.mask
+                d[w.names[k]] = 1 if g.flavor == 'raw' else g.api.true
+            elif c == 2:
+                subs[k] = 0
+                d[w.names[k]] = -1 if g.flavor == 'raw' else g.api.false
+            else:
+                s = w.pick(v, m)
+                subs[k] = s.tt
+                d[w.names[k]] = s.ref
         want = T.compose(a.tt, subs)
     elif kind == 'name':
         ren = {}
